@@ -6,6 +6,7 @@ One run = one dataset recipe x one operation x one chunking x one simulated sche
   sim  = op(chunked data).compute(threads, pool=SimPool)    clause 1 + clause 3 (== sync, bit-exact)
 """
 import json
+import os
 import random
 import warnings
 
@@ -62,6 +63,8 @@ def gen_plan(rng, tier="quick"):
     while int(np.prod([n for _, n in dims] or [1])) > 24:
         dims[rng.randrange(len(dims))][1] = 1
     nf = rng.randint(3, 14)
+    if rng.random() < 0.03:
+        nf = rng.choice([1, 2])                        # degenerate frequency axes
     big = tier == "thorough" and rng.random() < 0.3   # deeper bounds in the thorough tier
     if big:
         nf = rng.randint(10, 24)
@@ -104,6 +107,10 @@ def gen_plan(rng, tier="quick"):
         dims[:] = [[k, min(n, 3)] for k, n in dims]
     if cls == "exact" or op["m"] in O.PARTITIONS or op["m"] == "smooth":
         recipe["data"]["kind"] = "int_bumps"
+        if op["m"] in ("hp01", "ptm1", "ptm2", "ptm3") and rng.random() < (0.7 if op["m"] == "hp01" else 0.3):
+            recipe["data"]["kind"] = "int_multi"
+            recipe["nf"] = max(recipe["nf"], rng.randint(8, 14))
+            recipe["nd"] = max(recipe["nd"], rng.choice([8, 9, 12, 16]))
     elif rng.random() < 0.3:
         recipe["data"]["kind"] = rng.choice(["int_bumps", "random"])
     if op["m"].startswith("fit"):
@@ -159,11 +166,18 @@ def gen_plan(rng, tier="quick"):
         "p_dup": rng.choice([0, 0, 0.05, 0.3]),
         "p_stall": rng.choice([0, 0, 0.03, 0.1]),
         "dup_concurrent": rng.random() < 0.5,
+        "rv_funcs": rng.random() < 0.5,
         "d": rng.randint(1, 3),
         "expected_points": rng.choice([200, 1000, 5000]),
     }
     plan = {"engine": NAME, "recipe": recipe, "op": op, "chunks": chunks, "aux": aux, "aux_chunks": aux_chunks, "coords": coords, "cfg": cfg}
-    if rng.random() < 0.15 and op["m"] not in ("sel", "interp"):
+    if rng.random() < (0.35 if op["m"] in O.PARTITIONS or op["m"].startswith("fit") else 0.15) and op["m"] not in ("sel", "interp"):
+        if cfg["strategy"] in ("solo", "pct") and rng.random() < 0.7:
+            cfg["strategy"] = rng.choice(["rw", "lockstep"])
+        cfg["K"] = max(cfg["K"], rng.choice([2, 4, 4, 8]))     # tasks of both graphs must be in flight together
+        cfg["gap_mean"] = min(cfg["gap_mean"], rng.choice([1, 2, 3, 5]))
+        if cfg["strategy"] == "lockstep" and rng.random() < 0.8:
+            cfg["rv_funcs"] = True
         # a second dataset on another spectral grid goes through the same operation in the same compute
         # (dask.compute(a, b)): tasks of the two graphs interleave on the same workers
         r2 = json.loads(json.dumps(recipe))
@@ -270,6 +284,8 @@ def execute(arg):
 
     plan = arg["plan"]
     sim = Sim(arg["run_seed"], tape=arg.get("tape"), strict=arg.get("strict", False))
+    if arg.get("plan_retries"):
+        sim.count("plan_generation_retries", arg["plan_retries"])
     install_seams(arg["run_seed"])
     repo = build.repo_root()
     recipe, op, cfg = plan["recipe"], plan["op"], plan["cfg"]
@@ -293,7 +309,7 @@ def execute(arg):
             out["tape"] = sim.tape
             out["plan"] = plan
         if arg.get("want_log"):
-            out["log"] = [list(map(str, e)) for e in sim.log[-400:]]
+            out["log"] = [list(map(str, e)) for e in (sim.log if os.environ.get("VERIF_FULL_LOG") else sim.log[-400:])]
         return out
 
     def add(clause, cause, cls, detail):
@@ -303,6 +319,9 @@ def execute(arg):
             "detail": f"{label} on {D.describe(recipe)} chunks={plan['chunks']} aux={plan['aux']}: {detail}"[:900],
         })
 
+    from simkit.probe import global_state
+
+    g0 = global_state()          # before the library has been called at all in this child
     ds = D.make_dataset(recipe)
     cls = O.tol_class(op)
     rtol, atol = _tols(cls, recipe.get("dtype", "float64"))
@@ -413,11 +432,65 @@ def execute(arg):
         return finish()
     if _filters_digest() != f0:
         sim.count("warnings_filters_changed")
+    if not viol and global_state() != g0 and cfg["strategy"] != "solo":
+        # greybox: tasks changed module-level state of the library.  Not a violation in itself, but shared mutable
+        # state plus concurrency is where schedule dependence comes from: intensify - the same operation on a second
+        # dataset with another spectral grid in the same compute, many workers, lockstep with function rendezvous
+        sim.count("module_state_changed_by_tasks")
+        _intensify(plan, op, dsc, sync_c, sim, repo, add)
     d = cmp.compare(sync_c, sim_c, rtol=None)
     if d:
         files = _preempt_files(sim)
         add("sched", f"preempt@{files}", d[0], f"result under simulated threaded schedule (K={cfg['K']}, {cfg['strategy']}) differs from the synchronous scheduler on the same graph: {d[1]}")
     return finish()
+
+
+def _intensify(plan, op, dsc, sync_c, sim, repo, add, rounds=12):
+    import dask
+
+    recipe = plan["recipe"]
+    r2 = json.loads(json.dumps(recipe))
+    r2["nf"] = max(3, recipe["nf"] + 2)
+    r2["nd"] = {0: 0}.get(recipe["nd"], [n for n in (4, 6, 8, 9, 12, 16) if n != recipe["nd"]][recipe["nf"] % 5])
+    r2["data"]["seed"] = recipe["data"].get("seed", 0) + 1
+    try:
+        ds_b = D.make_dataset(r2)
+        dsc_b = apply_chunks(ds_b, dict(plan, chunks={k: v for k, v in plan["chunks"].items() if not isinstance(v, list)}))
+        la, lb = O.apply_op(dsc, op), O.apply_op(dsc_b, op)
+        fa = list(la) if isinstance(la, tuple) else [la]
+        fb = list(lb) if isinstance(lb, tuple) else [lb]
+        joint = dask.compute(*(fa + fb), scheduler="sync")
+        ref = [cmp.canon(x) for x in joint]
+    except Exception:
+        sim.count("intensify_skipped")
+        return
+    cfg = dict(plan["cfg"], K=8, strategy="lockstep", rv_funcs=True, gap_mean=1, p_dup=0, p_stall=0)
+    budget = sim.stats.get("decisions", 0) + 60000      # deterministic bound on the extra effort (no clock involved)
+    for k in range(rounds):
+        if sim.stats.get("decisions", 0) > budget:
+            sim.count("intensify_cut_short")
+            break
+        sim.count("intensify_rounds")
+        la, lb = O.apply_op(dsc, op), O.apply_op(dsc_b, op)
+        fa = list(la) if isinstance(la, tuple) else [la]
+        fb = list(lb) if isinstance(lb, tuple) else [lb]
+
+        class _Pair:
+            def compute(self, **kw):
+                return dask.compute(*(fa + fb), **kw)
+
+        try:
+            got = simulated_compute(_Pair(), sim, cfg, repo, {"chunksize": 1, "optimize_graph": True})
+        except Exception as exc:
+            add("sched", f"preempt@{_preempt_files(sim)};pair;intensified", type(exc).__name__,
+                f"with a second dataset ({D.describe(r2)}) in the same compute (K=8, lockstep) the compute raises {type(exc).__name__}: {exc}")
+            return
+        for i, (r, g) in enumerate(zip(ref, got)):
+            d = cmp.compare(r, cmp.canon(g), rtol=None)
+            if d:
+                add("sched", f"preempt@{_preempt_files(sim)};pair;intensified", d[0],
+                    f"with a second dataset ({D.describe(r2)}) in the same compute (K=8, lockstep) result {i} differs from the synchronous scheduler: {d[1]}")
+                return
 
 
 def _preempt_files(sim):
@@ -539,4 +612,5 @@ ASSUMPTIONS = [
     "interleaving is controlled at Python-line granularity inside wavespectra files and at the yield points of specpart.c (only when the calling thread has released the GIL); numpy/scipy/xarray internals run atomically under the baton",
     "clause 2 tolerances: bit-exact for partitions/splits/to_energy; rtol 1e-9 (float64) for reductions that cross chunks; 1e-6 for cancellation-prone widths; 2e-3 for fits; a tolerance-class mismatch is discarded when a 1-ulp perturbation of the input moves the in-memory answer as much (conditioning guard)",
 ]
+# module_state_changed_by_tasks / intensify_rounds stay 0 on a tree whose tasks do not touch module-level state
 PROBES = ["sync_ok", "pair_computes", "max_tasks_in_flight", "preempt_inside_task", "fault.duplicate", "fault.duplicate_concurrent", "fault.stall", "fault.preempt_py", "c_sites_gil_held", "rendezvous_met"]
